@@ -45,6 +45,7 @@ why = {
  'C15-m9': 'a fast path parses plain numbers with ParseFloat, which also accepts nan/inf: which texts count as numbers is value-level',
  'C16-m10': 'keys skips entries tagged !!merge while to_entries does not: value-level disagreement between two operators',
  'C19-m10': 'only the first object of a CSV array is checked for nested values: the removed validation was value-level',
+ 'C15-m8': 'parseInt64 takes a sign off before the prefix tests and multiplies it back (-0x8000000000000000 overflows, "-" + hex now parses): arithmetic on run-time values. It used to be counted as detected through C11-P4, but that alarm was for the wrong reason — `numberString[1:]` under `HasPrefix(numberString, "-")` is safe and is now proved by the flow-based length facts',
  'C04-m11': 'with `*d` an empty right-hand sequence is routed to plain assignment instead of the positional merge: an extra disjunct in a value-level case distinction of applyAssignment; which operand shapes take which route is not a shape of the code',
  'C06-m11': 'isTruthyNode compares the boolean text through a lower-case map instead of EqualFold: case folding of scalar text is value-level (the pinned tree itself compares `node.Value != "false"` case-sensitively in the printer, so no sibling agreement exists to check against)',
  'C14-m11': 'the Lua decoder decides int-ness by math.Mod(n,1)==0 instead of a round trip through int: which float values count as integers is arithmetic on run-time values',
